@@ -447,6 +447,69 @@ func c02Spaces(c *fw.Ctx) {
 			}
 		})
 
+	c.Space("short/option-sequences", "SVCB / HTTPS records with every sequence of 2 and 3 parameters over the keys {0,1,2,3,4,5,6,7,65280,65534,65535} (in order, out of order, repeated; each with an empty and with a minimal well-formed value), and OPT records with every sequence of 2 options over the codes {1,2,3,5,8,9,10,11,12,15,18,19,65001} (empty and minimal values): decoders that look at the neighbouring parameter (ordering, duplicates, mandatory) see every neighbour; non-trivial: accepted", true,
+		func(emit func(func(*fw.R))) {
+			keys := []uint16{0, 1, 2, 3, 4, 5, 6, 7, 65280, 65534, 65535}
+			minimal := map[uint16][]byte{0: {0, 1}, 1: {2, 'h', '2'}, 2: {}, 3: {1, 187}, 4: {192, 0, 2, 1}, 5: {0, 1}, 6: make([]byte, 16), 7: []byte("/q{?dns}"), 65280: {1}, 65534: {1}, 65535: {1}}
+			var seqs [][]uint16
+			for _, a := range keys {
+				for _, b := range keys {
+					seqs = append(seqs, []uint16{a, b})
+					for _, c3 := range keys {
+						seqs = append(seqs, []uint16{a, b, c3})
+					}
+				}
+			}
+			for _, sq := range seqs {
+				sq := sq
+				emit(func(r *fw.R) {
+					for mode := 0; mode < 2; mode++ {
+						rd := []byte{0, 1, 0}
+						for _, k := range sq {
+							var v []byte
+							if mode == 1 {
+								v = minimal[k]
+							}
+							rd = append(rd, byte(k>>8), byte(k), byte(len(v)>>8), byte(len(v)))
+							rd = append(rd, v...)
+						}
+						for _, typ := range []byte{64, 65} {
+							rrb := append([]byte{0, 0, typ, 0, 1, 0, 0, 0, 5, byte(len(rd) >> 8), byte(len(rd))}, rd...)
+							msg := append([]byte{0, 1, 0x80, 0, 0, 0, 0, 1, 0, 0, 0, 0}, rrb...)
+							if c02Decode(r, msg, "option-sequence") {
+								r.Nontrivial()
+							}
+						}
+					}
+				})
+			}
+			codes := []uint16{1, 2, 3, 5, 8, 9, 10, 11, 12, 15, 18, 19, 65001}
+			minOpt := map[uint16][]byte{1: make([]byte, 18), 2: {0, 0, 14, 16}, 3: []byte("ns"), 5: {8, 13}, 8: {0, 1, 24, 0, 192, 0, 2}, 9: {0, 0, 0, 60}, 10: make([]byte, 8), 11: {0, 100}, 12: {0, 0}, 15: {0, 1}, 18: {0}, 19: {1, 0, 0, 0, 0, 1}, 65001: {1}}
+			for _, a := range codes {
+				for _, b := range codes {
+					a, b := a, b
+					emit(func(r *fw.R) {
+						for mode := 0; mode < 2; mode++ {
+							var rd []byte
+							for _, k := range []uint16{a, b} {
+								var v []byte
+								if mode == 1 {
+									v = minOpt[k]
+								}
+								rd = append(rd, byte(k>>8), byte(k), byte(len(v)>>8), byte(len(v)))
+								rd = append(rd, v...)
+							}
+							rrb := append([]byte{0, 0, 41, 4, 0, 0, 0, 0, 0, byte(len(rd) >> 8), byte(len(rd))}, rd...)
+							msg := append([]byte{0, 1, 0x80, 0, 0, 0, 0, 0, 0, 0, 0, 1}, rrb...)
+							if c02Decode(r, msg, "option-sequence") {
+								r.Nontrivial()
+							}
+						}
+					})
+				}
+			}
+		})
+
 	// ---------------------------------------------------------------- (b) neighbourhoods of structured seeds
 	type seed struct {
 		name string
